@@ -1,7 +1,7 @@
 import SlipVerif.Model.Num
 import SlipVerif.Driver.Util
 --! namespace: num
-/- line protocol for C05:  num <op> <operand>*   operands: q:<n>[/<d>] | b:<n> | r:<n> | d:<hexbits> | s:<hexbits> | l:<prec>:<n>[/<d>] -/
+/- line protocol for C05:  num <op> <operand>*   operands: q:<n>[/<d>] | b:<n> | r:<n> | o:<n> | d:<hexbits> | s:<hexbits> | l:<prec>:<n>[/<d>] -/
 namespace SlipVerif.Driver.Num
 open SlipVerif.Num SlipVerif.Driver
 
@@ -10,6 +10,7 @@ def parseOperand (s : String) : Option Rat :=
   | ["q", v] => parseRat? v
   | ["b", v] => parseRat? v   -- an integer held in a bignum object (any magnitude): same value
   | ["r", v] => parseRat? v   -- an integer held in a ratio object with denominator 1: same value
+  | ["o", v] => parseRat? v   -- an integer 0..255 held in an octet: same value
   | ["d", h] => (parseHexNat? h).bind ofBits64
   | ["s", h] => (parseHexNat? h).bind ofBits32
   | ["l", _prec, v] => parseRat? v   -- long-float: exact dyadic value, decoded by the harness
@@ -19,88 +20,44 @@ def showVal (r : Rat) : String := s!"{typeOf r}:{showRat r}"
 def showErr : Err → String
   | .divZero => "err division-by-zero"
   | .typeErr => "err type-error"
-def okRat (r : Rat) : String := "ok " ++ showVal r
 def okBool (b : Bool) : String := if b then "ok t" else "ok nil"
-def exRat : Except Err Rat → String
-  | .ok r => okRat r
-  | .error e => showErr e
-def exQR : Except Err (Int × Rat) → String
-  | .ok (q, r) => s!"ok {showVal (q : Rat)} {showVal r}"
-  | .error e => showErr e
-def ints (xs : List Rat) : Option (List Int) :=
-  xs.mapM (fun r => if r.den = 1 then some r.num else none)
+
+/-- the reply line of one call -/
+def showOutcome : Outcome → String
+  | .vals vs => " ".intercalate ("ok" :: vs.map showVal)
+  | .bool b => okBool b
+  | .err e => showErr e
+  | .bad why => "bad-request " ++ why
+
+/-- `$<i>`: the i-th kept value; anything else is a new operand -/
+def parseArg (s : String) : Option Arg :=
+  if s.startsWith "$" then (s.drop 1).toNat?.map Arg.ref
+  else (parseOperand s).map Arg.lit
+
+/-- split the words of a history at the `;` words -/
+def splitCalls (ws : List String) : List (List String) :=
+  let r := ws.foldl (fun (acc : List (List String) × List String) w =>
+    if w = ";" then (acc.2.reverse :: acc.1, []) else (acc.1, w :: acc.2)) ([], [])
+  (r.2.reverse :: r.1).reverse
+
+def parseCall : List String → Option Call
+  | [] => none
+  | op :: args => (args.mapM parseArg).map (fun as => { op := op, args := as })
+
+/-- `num hist <op> <arg>* ; <op> <arg>* ; …` — reply: the outcome of every call, then the final store:
+    `ok <outcome> ; <outcome> ; … ;; <kept value>*` -/
+def handleHist (ws : List String) : String :=
+  match (splitCalls ws).mapM parseCall with
+  | none => "bad-request history"
+  | some calls =>
+    let r := run [] calls
+    if r.2.any (fun o => match o with | .bad _ => true | _ => false) then "bad-request history-call"
+    else "ok " ++ " ; ".intercalate (r.2.map showOutcome) ++ " ;; " ++ " ".intercalate (r.1.map showVal)
 
 def handle (op : String) (args : List String) : String :=
+  if op = "hist" then handleHist args else
   match args.mapM parseOperand with
   | none => "bad-request operand"
-  | some xs =>
-    match op, xs with
-    | "+", xs => okRat (addAll xs)
-    | "*", xs => okRat (mulAll xs)
-    | "-", xs => exRat (subAll xs)
-    | "/", xs => exRat (divAll xs)
-    | "1+", [a] => okRat (add a 1)
-    | "1-", [a] => okRat (sub a 1)
-    | "incf", [a] => okRat (add a 1)
-    | "incf", [a, b] => okRat (add a b)
-    | "decf", [a] => okRat (sub a 1)
-    | "decf", [a, b] => okRat (sub a b)
-    | "abs", [a] => okRat (absR a)
-    | "floor", [a] => exQR (floorDiv a 1)
-    | "floor", [a, b] => exQR (floorDiv a b)
-    | "ceiling", [a] => exQR (ceilDiv a 1)
-    | "ceiling", [a, b] => exQR (ceilDiv a b)
-    | "truncate", [a] => exQR (truncDiv a 1)
-    | "truncate", [a, b] => exQR (truncDiv a b)
-    | "round", [a] => exQR (roundDiv a 1)
-    | "round", [a, b] => exQR (roundDiv a b)
-    | "mod", [a, b] => exRat (modR a b)
-    | "rem", [a, b] => exRat (remR a b)
-    | "gcd", xs => match ints xs with
-        | some is => okRat (gcdAll is)
-        | none => showErr .typeErr
-    | "lcm", xs => match ints xs with
-        | some is => okRat (lcmAll is)
-        | none => showErr .typeErr
-    | "isqrt", [a] => if a.den = 1 then exRat ((isqrt a.num).map (fun i => (i : Rat))) else showErr .typeErr
-    | "ash", [a, k] => if a.den = 1 ∧ k.den = 1 then okRat (ash a.num k.num) else showErr .typeErr
-    | "expt", [b, n] => if n.den = 1 then exRat (expt b n.num) else "bad-request expt"
-    | "logand", xs => match ints xs with
-        | some is => okRat (landAll is)
-        | none => showErr .typeErr
-    | "logior", xs => match ints xs with
-        | some is => okRat (lorAll is)
-        | none => showErr .typeErr
-    | "logxor", xs => match ints xs with
-        | some is => okRat (lxorAll is)
-        | none => showErr .typeErr
-    | "lognot", [a] => if a.den = 1 then okRat (lnot a.num) else showErr .typeErr
-    | "LessThan", [a, b] => okBool (lt a b)
-    | "<", xs => okBool (chain lt xs)
-    | "<=", xs => okBool (chain le xs)
-    | ">", xs => okBool (chain gt xs)
-    | ">=", xs => okBool (chain ge xs)
-    | "=", xs => okBool (chain eq xs)
-    | "/=", xs => okBool (allDiff xs)
-    | "min", xs => exRat (minAll xs)
-    | "max", xs => exRat (maxAll xs)
-    | "zerop", [a] => okBool (zerop a)
-    | "plusp", [a] => okBool (plusp a)
-    | "minusp", [a] => okBool (minusp a)
-    | "logcount", [a] => if a.den = 1 then okRat (logcount a.num) else showErr .typeErr
-    | "integer-length", [a] => if a.den = 1 then okRat (integerLength a.num) else showErr .typeErr
-    | "logbitp", [i, a] => if i.den = 1 ∧ a.den = 1 then
-          (match logbitp i.num a.num with
-           | .ok b => okBool b
-           | .error e => showErr e)
-        else showErr .typeErr
-    | "evenp", [a] => if a.den = 1 then okBool (evenp a.num) else showErr .typeErr
-    | "oddp", [a] => if a.den = 1 then okBool (oddp a.num) else showErr .typeErr
-    | "signum", [a] => okRat (signum a)
-    | "numerator", [a] => okRat (numerator a)
-    | "denominator", [a] => okRat (denominator a)
-    | "rational", [a] => okRat a
-    | "value", [a] => okRat a
-    | _, _ => "bad-request op"
+  | some xs => showOutcome (apply op xs)
 
 end SlipVerif.Driver.Num
